@@ -113,9 +113,6 @@ func (vc *VC) heapFor(st *State, name string, sort Sort) Term {
 	}
 	h, ok := vc.entryHeaps[name]
 	if !ok {
-		if len(vc.defScopes) > 0 {
-			fail("heap %s first touched inside a spec context", name)
-		}
 		vc.heapSorts[name] = sort
 		n := name + "!0"
 		vc.preDecls = append(vc.preDecls, fmt.Sprintf("(declare-const %s %s)", n, sort))
@@ -188,7 +185,7 @@ func (vc *VC) wfValueA(v Term, t types.Type, alloc Term, depth int) Term {
 		}
 		return True
 	case *types.Pointer:
-		return And(Lt(PArr(v), alloc), Le(IntLit(0), PIdx(v)))
+		return And(Lt(PArr(v), alloc), Le(IntLit(0), PIdx(v)), Implies(Eq(PArr(v), IntLit(0)), Eq(PIdx(v), IntLit(0))))
 	case *types.Slice:
 		return And(Lt(SArr(v), alloc), Le(IntLit(0), SOff(v)), Le(IntLit(0), SLen(v)), Le(SLen(v), SCap(v)),
 			Implies(Eq(SArr(v), IntLit(0)), Eq(SCap(v), IntLit(0))))
@@ -716,7 +713,18 @@ func (fr *Frame) eqTerm(a, b Term, t types.Type) Term {
 	}
 	if a.Sort == SSlice {
 		// only comparison with nil is legal Go
+		if a.S == fr.vc.ss.Zero(SSlice).S {
+			return Eq(SArr(b), IntLit(0))
+		}
 		return Eq(SArr(a), IntLit(0))
+	}
+	if a.Sort == SPtr {
+		if b.S == NilPtr.S {
+			return Eq(PArr(a), IntLit(0))
+		}
+		if a.S == NilPtr.S {
+			return Eq(PArr(b), IntLit(0))
+		}
 	}
 	return Eq(a, b)
 }
